@@ -557,12 +557,9 @@ class EZSP:
 
         # Make sure CONFIG_PACKET_BUFFER_COUNT is always set last
         if t.EzspConfigId.CONFIG_PACKET_BUFFER_COUNT.name in ezsp_config:
-            ezsp_config = {
-                **ezsp_config,
-                t.EzspConfigId.CONFIG_PACKET_BUFFER_COUNT.name: ezsp_config[
-                    t.EzspConfigId.CONFIG_PACKET_BUFFER_COUNT.name
-                ],
-            }
+            ezsp_config[t.EzspConfigId.CONFIG_PACKET_BUFFER_COUNT.name] = ezsp_config.pop(
+                t.EzspConfigId.CONFIG_PACKET_BUFFER_COUNT.name
+            )
 
         # First, set the values
         for cfg in ezsp_values.values():
